@@ -167,6 +167,7 @@ def gen_cases(ctx):
     for k, (imax, jmax, sub) in enumerate([(30, 8, None), (8, 26, None), (28, 9, (12, 27, 1, 8)), (9, 24, (1, 8, 10, 23))] * (1 if ctx.quick else 4)):
         out.append({"k": "romsgrid", "imax": imax, "jmax": jmax, "sub": sub, "D": [1.0, 10.0, 0.1, 100.0][k % 4], "dt": [600, 60, 3600, 300][k % 4],
                     "dx0": [800.0, 4000.0, 160.0, 20000.0][k % 4], "seed": rng.randrange(2**31)})
+    out.append({"k": "warmcloud", "D": 2.0, "dt": 60, "dx": 100.0, "n": 20000, "ncold": 6, "nwarm": 5, "start_rec": 2})
     ncloud = 16 if ctx.quick else 48
     for i in range(ncloud):
         mode = ["h", "v", "hv", "hv+w", "none", "none+w", "h+w", "v+w"][i % 8]
@@ -463,7 +464,50 @@ def eval_romsgrid(desc, ctx):
             "observed": {"grid": [imax, jmax], "sub": sub}}
 
 
+def eval_warmcloud(desc, ctx):
+    """oracle only, through ladim.main: a cloud released in one point spreads with variance 2*D*t — ALSO across a warm
+    start whose configuration still carries the `time.start` of the cold run's set-up (a time that is in the restart
+    file, but not its last record): the restarted run continues from the LAST record, and every record it writes shows
+    a cloud of variance 2*D*(record time - release time)"""
+    import run_ladim as rl
+    import romsfiles as rf
+
+    d = ctx.subdir("c11warm")
+    for f in d.glob("*"):
+        f.unlink()
+    D, dt, dx, n, ncold, nwarm = desc["D"], desc["dt"], desc["dx"], desc["n"], desc["ncold"], desc["nwarm"]
+    T = (ncold + nwarm + 2) * dt
+    rf.write_roms(d / "f.nc", imax=60, jmax=40, N=2, times=[0, T], u=0.0, v=0.0, h=100.0, dx=dx)
+    rf.write_release(d / "r.rls", [[0, n, 30.0, 20.0, 5.0]])
+    cold = rf.base_config(start=0, stop=ncold * dt, dt=dt, forcing_file=d / "f.nc", release_file=d / "r.rls", out_file=d / "cold.nc",
+                          names=("release_time", "mult", "X", "Y", "Z"), advection="", output_period=dt)
+    cold["tracker"]["diffusion"] = D
+    rl.run_main(cold, d)
+    warm = rf.base_config(start=desc["start_rec"] * dt, stop=(ncold + nwarm) * dt, dt=dt, forcing_file=d / "f.nc", release_file=d / "r.rls",
+                          out_file=d / "warm.nc", names=("release_time", "mult", "X", "Y", "Z"), advection="", output_period=dt)
+    warm["tracker"]["diffusion"] = D
+    warm["warm_start"] = {"filename": str(d / "cold.nc"), "variables": []}
+    rl.run_main(warm, d)
+    problems, obs = [], []
+    for name in ("cold.nc", "warm.nc"):
+        for r in rl.read_sparse(d / name, absolute=True)["records"]:
+            t = float(r["time"])
+            X, Y = np.asarray(r["vars"]["X"], dtype=float), np.asarray(r["vars"]["Y"], dtype=float)
+            if len(X) < n // 2 or t == 0:
+                continue
+            var = 0.5 * (X.var() + Y.var()) * dx * dx
+            want = 2 * D * t
+            obs.append([name, t, float(var), want])
+            if abs(var - want) > 6 * want * math.sqrt(1.0 / len(X)):  # variance of a pooled 2N-sample variance: want*sqrt(1/N)
+                problems.append(f"{name}: record at t = {t:.0f} s after the release: cloud variance {var:.1f} m2, 2*D*t = {want:.1f} m2 (D = {D})")
+    if not any(o[0] == "warm.nc" for o in obs):
+        problems.append("the restarted run wrote no record with the cloud")
+    return {"ints": None, "oracle": "; ".join(problems[:2]) or None, "nontrivial": ("warmcloud", D, dt), "kind": "warm-cloud", "observed": obs[-4:]}
+
+
 def eval_case(desc, ctx):
+    if desc["k"] == "warmcloud":
+        return eval_warmcloud(desc, ctx)
     if desc["k"] == "romsgrid":
         return eval_romsgrid(desc, ctx)
     if desc["k"] == "cloud":
